@@ -342,10 +342,43 @@ func c05(args []string) {
 				}
 			}
 			file := rawSeq(recs)
-			if r.chance(1, 5) && accum { // a second sequence: accumulators restart
-				file = append(file, rawSeq(recordsFor(ow.mesg, fields, rows[:1]))...)
+			var second []byte
+			if r.chance(2, 5) && accum { // a second sequence: accumulators restart
+				second = rawSeq(recordsFor(ow.mesg, fields, rows[:1+r.intn(len(rows))]))
+				if r.chance(1, 2) { // ... continuing with the very rows the first sequence ended with (same destinations, no seeding in between)
+					second = rawSeq(recordsFor(ow.mesg, fields, rows[len(rows)-1-r.intn(len(rows)):]))
+				}
+				file = append(file, second...)
 			}
 			on := decodeAll(bytes.NewReader(file), len(file))
+			if second != nil && on.err == nil && on.panicked == nil && len(on.fits) == 2 {
+				// running totals belong to one sequence: the second sequence decodes as it does on its own, whether it follows in the
+				// same stream or is given to the same decoder after Reset
+				alone := decodeAll(bytes.NewReader(second), len(second))
+				first := file[:len(file)-len(second)]
+				dec := decoder.New(bytes.NewReader(first))
+				_, err1 := dec.Decode()
+				dec.Reset(bytes.NewReader(second))
+				reused, err2 := dec.Decode()
+				stat("second_sequence_vs_alone", 1)
+				if alone.err != nil || len(alone.fits) != 1 || err1 != nil || err2 != nil {
+					emitJSON("FAIL", "", map[string]any{"kind": "second-sequence-decode-error", "owner": fmt.Sprint(ow), "alone_err": fmt.Sprint(alone.err), "first_err": fmt.Sprint(err1), "reused_err": fmt.Sprint(err2), "bytes": fmt.Sprintf("%x", file)})
+				} else {
+					for how, got := range map[string]*proto.FIT{"chained after the first sequence": on.fits[1], "same decoder after Reset": reused} {
+						if len(got.Messages) != len(alone.fits[0].Messages) {
+							emitJSON("FAIL", "", map[string]any{"kind": "second-sequence-differs-from-alone", "how": how, "owner": fmt.Sprint(ow), "bytes": fmt.Sprintf("%x", file), "second": fmt.Sprintf("%x", second)})
+							continue
+						}
+						for mi := range got.Messages {
+							if a, b := coqMesg(&got.Messages[mi], false), coqMesg(&alone.fits[0].Messages[mi], false); a != b {
+								emitJSON("FAIL", "", map[string]any{"kind": "second-sequence-differs-from-alone", "how": how, "owner": fmt.Sprint(ow), "message": mi, "got": a, "alone": b,
+									"bytes": fmt.Sprintf("%x", file), "second": fmt.Sprintf("%x", second)})
+								break
+							}
+						}
+					}
+				}
+			}
 			off := decodeAll(bytes.NewReader(file), len(file), decoder.WithNoComponentExpansion())
 			if on.err != nil || off.err != nil || on.panicked != nil {
 				emitJSON("FAIL", "", map[string]any{"kind": "decode-error", "owner": fmt.Sprint(ow), "err": fmt.Sprint(on.err), "bytes": fmt.Sprintf("%x", file)})
